@@ -247,3 +247,14 @@ def run(rep: Report, tier: str):
     check_find_class(repo, rep)
     check_closures(repo, rep)
     check_entry_points(repo, rep, tier)
+    # the set consulted is exactly built-in + this activation's additions: C11's ownership analysis, re-keyed
+    from . import c11 as _c11
+
+    tmp = Report("C11", tier)
+    _c11.run(tmp, tier)
+    rep.rule("C07.allowlist-scope", "the allowlist consulted by find_class is the built-in table plus this activation's additions only (C11's ownership rules)", 3)
+    for f in tmp.findings:
+        rep.bad("C07.allowlist-scope", f.construct, f"{f.rule}:{f.detail}", "a global can be admitted that is neither built-in nor among the current additions: " + f.message, f.file, f.line)
+    for i in tmp.instances:
+        if i.ok:
+            rep.ok("C07.allowlist-scope", i.construct, i.what, i.where, i.nontrivial)
